@@ -985,9 +985,18 @@ impl NodeDeletionEntry {
     ) -> std::result::Result<(), rusqlite::Error> {
         let query = "DELETE FROM _node WHERE room_id=? AND id=? AND mdate <= ?";
         let mut stmt = conn.prepare_cached(query)?;
+        let mut stored_date_stmt =
+            conn.prepare_cached("SELECT mdate FROM _node WHERE room_id=? AND id=? AND mdate <= ?")?;
         for node in nodes {
             #[cfg(discret_verif)]
             crate::verif::fault_point("stmt_sync_del_node")?;
+            //the version stored here can be older than the deleted one: its day changes too
+            let stored_date: Option<i64> = stored_date_stmt
+                .query_row((node.room_id, node.id, node.mdate), |row| row.get(0))
+                .optional()?;
+            if let Some(stored_date) = stored_date {
+                daily_log.set_need_update(node.room_id, &node.entity, stored_date);
+            }
             stmt.execute((node.room_id, node.id, node.mdate))?;
             node.write(conn)?;
             daily_log.set_need_update(node.room_id, &node.entity, node.deletion_date);
